@@ -118,7 +118,7 @@ def run_one(tape, opts):
     out = Outcome()
     scripts = gen_workload(tape)
     plan = gen_faults(tape)
-    traced = tape.chance("config", 1, 12, "traced") if opts.get("tier") != "quick" or True else False
+    traced = tape.chance("config", 1, 4 if opts.get("tier") == "thorough" else 12, "traced")   # line-level pre-emption
     nops = sum(len(s) for s in scripts)
     est = nops * (40 if traced else 10)
     if traced:
